@@ -26,7 +26,7 @@ type C12Case struct {
 }
 
 func GenC12() *rapid.Generator[C12Case] {
-	ng := genNet(NetCfg{LongChains: true, Rename: true})
+	ng := genNet(NetCfg{LongChains: true, Rename: true, Wide: true})
 	return rapid.Custom(func(t *rapid.T) C12Case {
 		c := C12Case{Net: ng.Draw(t, "net"), Extra: rapid.IntRange(0, 3).Draw(t, "extra steps")}
 		nIn, _, _, _ := c.Net.counts()
@@ -98,6 +98,9 @@ func CheckC12(c C12Case, rec *Rec) error {
 	}
 	if c.Net.Renamed {
 		rec.Class("node list does not start with the sensors")
+	}
+	if len(c.Net.Nodes) > 130 {
+		rec.Class("more than 128 neurons")
 	}
 	if depth > 20 {
 		rec.Class("depth above 20")
